@@ -127,13 +127,18 @@ class Parser:
         self.line = code_line
 
     def process_in_comment(self, line: str) -> str:
-        if self.in_comment.search(line):
-            code_line = line
-        else:
-            splitted_line = line.split(IN_COM)
-            code_line = splitted_line[0]
-            self.comments.append(splitted_line[1])
-        return code_line
+        # the first '--' outside a quoted literal starts the comment
+        quote = None
+        for index, char in enumerate(line):
+            if quote:
+                if char == quote:
+                    quote = None
+            elif char in "'\"":
+                quote = char
+            elif line.startswith(IN_COM, index):
+                self.comments.append(line[index + len(IN_COM) :])
+                return line[:index]
+        return line
 
     def process_line_before_comment(self) -> str:
         """get useful codeline - remove comment"""
